@@ -29,7 +29,8 @@ SPEC = "C12"
 
 # ------------------------------------------------------------------ small layouts for MC / GEN
 def _fld(name, off, width, reset=0, hidden=False, shr=0):
-    return {"name": name, "uid": f"{name}-{off}", "off": off, "width": width, "reset": A.bits_of(reset), "shr": shr, "hidden": hidden, "enums": {}, "decl_off": None}
+    return {"name": name, "uid": f"{name}-{off}", "off": off, "width": width, "reset": A.bits_of(reset), "shr": shr, "hidden": hidden, "enums": {}, "decl_off": None,
+            "enum_names_unique": True, "name_value": {}}
 
 
 def _leaf(name, off, fields=(), width=32, hidden=False, preset=0, comp="", parent=0, cond=None):
@@ -95,8 +96,8 @@ def targets(lay):
     for i, r in enumerate(lay["regs"], 1):
         if r["hidden"] or r["name"] in sig or names.get(r["name"], 0) != 1 or r.get("preset_ambiguous") or r.get("binfree") or r["comp"].startswith("unknown"):
             continue
-        if r["parent"] and lay["regs"][r["parent"] - 1]["name"] in sig:
-            continue
+        if r["parent"] and (lay["regs"][r["parent"] - 1]["name"] in sig or lay.get("kind") not in ("cmpa", "cfpa", "romcfg", "cmactable", "tiny-pfr")):
+            continue        # members of a group are configured by name only in the PFR / IFR tools (other schemas list top-level registers)
         if r["kind"] == "group":
             if r["width"] == r.get("subs_width", r["width"]) and not r.get("missing_subs") and r["subs"]:
                 res["group"].append(i)
@@ -126,8 +127,8 @@ def make_writes(lay, cls, valcls, r, nmax=6):
     """Concretise a write class on a layout: list of (write for the spec, (register name, bit-field name or None, value presented to the code))."""
     tg = targets(lay)
     pool = tg.get(cls) or []
-    if not pool:
-        for alt in ("field", "reg", "compfield", "group"):
+    if not pool and cls in ("field", "reg"):
+        for alt in ("field", "reg"):
             if tg[alt]:
                 cls, pool = alt, tg[alt]
                 break
@@ -166,12 +167,26 @@ def make_writes(lay, cls, valcls, r, nmax=6):
             used_regs.add(key)
             fi = t[1]
             fl = reg["fields"][fi - 1]
-            vc = valcls if valcls != "mix" else r.choice(VALUE_CLASSES)
-            stored = value_of(vc, fl["width"], r)
+            nv = fl.get("name_value", {})
+            stored = None
+            for _ in range(8):
+                vc = valcls if valcls != "mix" else r.choice(VALUE_CLASSES)
+                cand = value_of(vc, fl["width"], r)
+                # a value whose enum name also names an earlier value is written back under that earlier value (data defect reported by the
+                # Layout clause EnumNamesUnique): not generated
+                if cand in fl["enums"] and nv.get(str(fl["enums"][cand]), cand) != cand:
+                    valcls = "mix" if valcls != "mix" else valcls
+                    continue
+                stored = cand
+                break
+            if stored is None:
+                continue
             v = stored << fl["shr"]
             pv = present_int(v, r)
             if not fl["shr"] and stored in fl["enums"] and r.random() < 0.5:
                 pv = fl["enums"][stored]
+            elif isinstance(pv, str) and pv in nv:
+                pv = v          # a string that is also an enum NAME of this bit-field means that enum, not the number: present the number as a number
             res.append(({"r": ri, "f": fi, "v": A.bits_of(v), "aw": 0}, (reg["name"], fl["name"], pv)))
     return res
 
@@ -241,13 +256,16 @@ def project(ad, obj, lay):
     tops = [r for r in lay["regs"] if r["parent"] == 0]
     struct = len(real_tops) == len(tops)
     post = []
+    lay["first_mismatch"] = None
     for r, x in zip(lay["regs"], al):
         if x is None:
             struct = False
+            lay["first_mismatch"] = lay["first_mismatch"] or r["name"]
             post.append([-1] if r["kind"] == "leaf" else [])
             continue
         if x.name != r["name"] or x.width != r["width"] or bool(x.hidden) != bool(r["hidden"]) or (lay.get("hasbin", True) and r["parent"] == 0 and x.offset != r["off"]):
             struct = False
+            lay["first_mismatch"] = lay["first_mismatch"] or r["name"]
         if r["kind"] == "group":
             if len(x.sub_regs) != len(r["subs"]):
                 struct = False
@@ -308,6 +326,8 @@ class Runner:
                 self.obj, ev["ok"], ev["err"] = None, False, f"{type(e).__name__}: {e}"[:300]
             self.settings = None
             ev["struct"] = self.ev_post(ev)
+            if not ev["struct"] and lay.get("first_mismatch"):
+                ev["mismatch"] = lay["first_mismatch"]
             return ev
         if a == "Template":
             ev.update(ok=False, yaml=False, schema=False)
@@ -509,9 +529,9 @@ SCHED_ALIAS = [{"a": "NewObject"}, {"a": "SetValues", "cls": "field", "val": "mi
 SCHED_ALIAS_NOBIN = [{"a": "NewObject"}]
 # XMCD objects deep-copy their register files (and with them the device database) on every access: short schedules in the quick tier
 SCHED_TEMPLATE_SHORT = [{"a": "NewObject"}, {"a": "Template"}, {"a": "LoadConfig"}, {"a": "Export"}, {"a": "Parse"}, {"a": "Export"}]
-SCHED_VALUES_SHORT = [{"a": "NewObject"}, {"a": "SetValues", "cls": "field", "val": "mix", "n": 8}, {"a": "Export"}, {"a": "Parse"}, {"a": "Export"}, {"a": "GetConfig", "check": True},
+SCHED_VALUES_SHORT = [{"a": "NewObject"}, {"a": "SetValues", "cls": "field", "val": "mix", "n": 8}, {"a": "SetValues", "cls": "group", "val": "rnd", "n": 4}, {"a": "Export"}, {"a": "Parse"}, {"a": "Export"}, {"a": "GetConfig", "check": True},
                       {"a": "LoadConfig"}, {"a": "Export"}, {"a": "NewObject"}, {"a": "Export"}]
-SLOW_KINDS = ("xmcd",)
+SLOW_KINDS = ("xmcd", "fuses")
 
 
 def rich_hash(lay):
@@ -625,6 +645,8 @@ def finding_key(t, rej, names):
     ev = t["ev"][matched] if matched < len(t["ev"]) else t["ev"][-1]
     if clause == "TemplateYaml" and ev.get("cause"):
         key += "/" + ev["cause"]
+    if clause == "Structure" and ev.get("mismatch"):
+        key += "/" + str(ev["mismatch"]).replace("/", "_").replace(" ", "_")
     if reg and names and 0 < reg <= len(names):
         key += "/" + str(names[reg - 1]).replace("/", "_").replace(" ", "_")
     return key, ev
@@ -664,6 +686,7 @@ def gen_schedules(v, tiny_file, num, depth):
         raise Machinery(f"GEN produced only {len(behs)} schedules:\n{g.out[-1500:]}")
     v.add_mc(g)
     scheds = []
+    gen_schedules.behaviours = behs
     for b in behs:
         steps = [{"a": "NewObject"}]
         for h in b["hist"]:
@@ -694,6 +717,8 @@ def run(tier):
     # ---- GEN: schedules
     scheds = gen_schedules(v, tiny_file, 24 if tier == "quick" else 120, 8 if tier == "quick" else 10)
     say(f"[C12] GEN done {v.timer.s()}s: {len(scheds)} schedules")
+    canary(v, [A.tla_layout(x) for x in tiny], tiny_file, gen_schedules.behaviours)
+    say(f"[C12] canary done {v.timer.s()}s")
 
     # ---- every area the classes offer
     areas = A.enumerate_areas()
@@ -725,17 +750,17 @@ def run(tier):
         is_rep = json.dumps(ident, sort_keys=True) in reps
         if is_rep or tier != "quick":
             n_full += 1
-            short = tier == "quick" and a["kind"] in SLOW_KINDS
+            short = a["kind"] == "xmcd" or (tier == "quick" and a["kind"] in SLOW_KINDS)
             sl = [("template", SCHED_TEMPLATE_SHORT), ("values", SCHED_VALUES_SHORT)] if short else [("template", SCHED_TEMPLATE), ("values", SCHED_VALUES)]
             pick = rng(PROP, "subset", json.dumps(ident, sort_keys=True)).random()
-            if tier != "quick" or (pick < 0.34 and not short):
-                for k in range(2 if tier == "quick" else 5):
+            if (tier == "quick" and pick < 0.34 and not short) or (tier != "quick" and is_rep and a["kind"] != "xmcd"):
+                for k in range(2 if tier == "quick" else 6):
                     sl.append((f"hist{k}", scheds[(idx * 7 + k) % len(scheds)]))
             if a["kind"] == "cmpa":
                 sl.append(("rotkeys", [{"a": "NewObject"}, {"a": "SetValues", "cls": "rotkh", "mode": "keys", "nkeys": 1}, {"a": "Export"}, {"a": "Parse"}, {"a": "Export"},
                                        {"a": "SetValues", "cls": "rotkh", "mode": "keys", "nkeys": 2, "big": False}, {"a": "Export"}]))
         else:
-            sl = [("alias", SCHED_ALIAS if (A.KINDS[a["kind"]].has_binary and a["kind"] not in SLOW_KINDS) else SCHED_ALIAS_NOBIN)]
+            sl = [("alias", SCHED_ALIAS if (A.KINDS[a["kind"]].has_binary and a["kind"] != "xmcd") else SCHED_ALIAS_NOBIN)]
         jobs.append({"area": ident, "scheds": sl})
     # heavy kinds first, so that the pool is balanced
     weight = {"fuses": 9, "cmpa": 6, "cfpa": 6, "tz": 5, "romcfg": 4, "fcb": 3, "xmcd": 3, "bca": 2, "fcf": 2, "cmactable": 2, "memcfg": 1}
@@ -758,7 +783,8 @@ def run(tier):
     v.count(n_ev)
     for x in results:
         for t in x["traces"]:
-            v.nontrivial(t["id"])
+            if any(e["a"] in ("SetValues", "LoadConfig", "Parse") for e in t["ev"]):      # a state was transported through the real code
+                v.nontrivial(t["id"])
     v.extra["areas"] = kinds
     v.extra["content_classes"] = len(groups)
     v.extra["areas_full_schedules"] = n_full
@@ -767,12 +793,6 @@ def run(tier):
         for t in x["traces"]:
             for e in t["ev"]:
                 v.extra["events_by_action"][e["a"]] = v.extra["events_by_action"].get(e["a"], 0) + 1
-
-    # ---- canary
-    good = next(t for x in results if x["area"]["kind"] in ("cmpa", "romcfg", "bca", "fcb", "memcfg") for t in x["traces"] if t["id"].endswith("#values") and len(t["ev"]) > 8)
-    res0 = next(x for x in results for t in x["traces"] if t is good)
-    canary(v, good, res0)
-    say(f"[C12] canary done {v.timer.s()}s")
 
     rej, names = validate(v, results, "all")
     say(f"[C12] TV done {v.timer.s()}s: {len(rej)} traces rejected")
@@ -787,9 +807,14 @@ def run(tier):
     v.extra["observation_parse_skips_hidden_registers"] = probe_hidden(v)
     v.cov["rule"] = (
         "areas = every (kind, family, revision, sub-area) returned by each area class's own get_supported_families / memory-type / configuration-type / peripheral "
-        "queries; latest revisions run the template schedule and the value schedule (boundary-menu values for seeded bit-fields, registers, groups, computed registers, "
-        "seal, ROTKH over the full declared width, a second object after the first was customised and exported), other revisions the light schedule in the quick tier; "
-        f"a seeded share of the latest-revision areas additionally replays TLC-generated schedules ({len(scheds)} from CfgAreaGen -simulate); distinct = traces (area x schedule)")
+        "queries; areas with byte-identical database content (alias families, unchanged revisions) form one class: in the quick tier its representative runs the template "
+        "schedule and the value schedule (boundary-menu values for seeded bit-fields, registers, groups, computed registers, seal, ROTKH over the full declared width, a "
+        "second object after the first was customised and exported) and every other member is instantiated once (alias schedule); the thorough tier runs the full schedules "
+        f"on every area; a seeded share of the representatives additionally replays TLC-generated schedules ({len(scheds)} from CfgAreaGen -simulate); one layout-consistency "
+        "trace per area; distinct_nontrivial = distinct traces (area x schedule) in which at least one state was transported through the real code (SetValues / LoadConfig / Parse)")
+    v.extra["checker_cmd"] = "tlc2.TLC CfgAreaMC (lemmas), CfgAreaGen -simulate (schedules), CfgAreaTrace (batch trace validation, one JVM per chunk)"
+    v.extra["trusted_base"] = ["TLC", "spec/C12/Registers.tla + CfgArea.tla", "database files read directly (json / PyYAML)", "PyYAML safe_load as YAML judge", "hashlib",
+                               "cryptography (EC key generation only)", "bit-serial CRC-32/MPEG-2 in the harness", "documented binary sizes of the reference manuals"]
     v.assumptions += ASSUMPTIONS
     return v.finish()
 
@@ -811,28 +836,66 @@ ASSUMPTIONS = [
 ]
 
 
-def canary(v, good, res):
-    g = json.loads(json.dumps(good))
-    g["ev"] = [strip_event(e) for e in g["ev"]]
-    g["lay"] = 1
-    b1 = json.loads(json.dumps(g))
-    b2 = json.loads(json.dumps(g))
-    g["id"], b1["id"], b2["id"] = "canary-good", "canary-state", "canary-size"
-    # corrupt one logged bit of the state after the first SetValues, and the size of the first export
-    i1 = next(i for i, e in enumerate(b1["ev"]) if e["a"] == "SetValues")
-    leaf = next(i for i, x in enumerate(res["lay"]["regs"]) if x["kind"] == "leaf" and not x["hidden"])
-    cur = b1["ev"][i1]["post"][leaf]
-    b1["ev"][i1]["post"][leaf] = [x for x in cur if x != 3] if 3 in cur else cur + [3]
-    i2 = next(i for i, e in enumerate(b2["ev"]) if e["a"] == "Export")
-    b2["ev"][i2]["size"] += 4
-    lay_file = write_layouts([res["lay"]], "c12-canary-layout.json")
-    g["id"], b1["id"], b2["id"] = 0, 1, 2
-    rej, cres = tlc.tv(SPEC, "CfgAreaTrace", [g, b1, b2], env={"LAYOUT_FILE": lay_file}, heap="4g")
+def canary(v, tiny_tla, tiny_file, behs):
+    """A behaviour generated by the spec itself (states included) must be accepted as a trace; the same trace with one flipped
+    state bit, a wrong size, a false fact must be rejected at the right clause.  Independent of SPSDK."""
+    b = next((x for x in behs if x["lay"] == 1 and any(h["a"] == "SetValues" for h in x["hist"]) and any(h["a"] == "Export" for h in x["hist"])), None)
+    if b is None:
+        raise Machinery("canary: no generated behaviour with a write and an export on the first small layout")
+    lay = tiny_tla[b["lay"] - 1]
+    n = len(lay["regs"])
+
+    def state(post):
+        if isinstance(post, list):
+            post = {str(i + 1): x for i, x in enumerate(post)}
+        return [sorted(post.get(str(i), [])) if lay["regs"][i - 1]["kind"] == "leaf" else [] for i in range(1, n + 1)]
+
+    evs = [{"a": "NewObject", "ok": True, "struct": True, "post": [list(r["preset"]) if r["kind"] == "leaf" else [] for r in lay["regs"]]}]
+    prev_bin = None
+    for h in b["hist"]:
+        a = h["a"]
+        if a == "NewObject":
+            evs.append({"a": a, "ok": True, "struct": True, "post": state(h["post"])})
+        elif a == "Template":
+            evs.append({"a": a, "ok": True, "yaml": True, "schema": True})
+        elif a == "GetConfig":
+            evs.append({"a": a, "ok": True, "yaml": True, "schema": True})
+        elif a in ("LoadConfig",):
+            evs.append({"a": a, "ok": True, "post": state(h["post"])})
+        elif a == "Parse":
+            evs.append({"a": a, "ok": True, "verified": True, "post": state(h["post"])})
+        elif a == "SetValues":
+            evs.append({"a": a, "ok": True, "w": [{"r": w["r"], "f": w["f"], "v": list(w["v"]), "aw": w["aw"]} for w in h["w"]], "post": state(h["post"])})
+        elif a == "Export":
+            cur = state(h["post"])
+            evs.append({"a": a, "ok": True, "seal": bool(h["seal"]), "size": h["size"], "gaps": True, "bin": cur, "eqprev": cur == prev_bin, "rotkh": True, "crc": True})
+            prev_bin = cur
+    good = {"id": 0, "lay": b["lay"], "ev": evs}
+    bads = []
+    i1 = next(i for i, e in enumerate(evs) if e["a"] == "SetValues")
+    t = json.loads(json.dumps(good))
+    t["ev"][i1]["post"][0] = sorted(set(t["ev"][i1]["post"][0]) ^ {3})
+    bads.append((t, "SetValues"))
+    i2 = next(i for i, e in enumerate(evs) if e["a"] == "Export")
+    t = json.loads(json.dumps(good))
+    t["ev"][i2]["size"] += 4
+    bads.append((t, "SizeFixed"))
+    t = json.loads(json.dumps(good))
+    t["ev"][i2]["bin"][1] = sorted(set(t["ev"][i2]["bin"][1]) ^ {7})
+    bads.append((t, "ExportFaithful"))
+    t = json.loads(json.dumps(good))
+    t["ev"][i2]["gaps"] = False
+    bads.append((t, "GapsFilled"))
+    for k, (t, _) in enumerate(bads, 1):
+        t["id"] = k
+    rej, cres = tlc.tv(SPEC, "CfgAreaTrace", [good] + [t for t, _ in bads], env={"LAYOUT_FILE": tiny_file}, heap="4g")
     check_tv_output(cres, rej)
-    rej = {["canary-good", "canary-state", "canary-size"][k]: x for k, x in rej.items()}
-    if set(rej) != {"canary-state", "canary-size"} or rej["canary-size"][3] != "SizeFixed" or rej["canary-state"][3] != "SetValues":
-        raise Machinery(f"canary failed: rejected {rej} (expected canary-state at clause SetValues and canary-size at clause SizeFixed only)")
-    v.extra["canary"] = "real CMPA value trace accepted; same trace with one flipped logged register bit rejected (clause SetValues), with a wrong export size rejected (SizeFixed)"
+    want = {k: c for k, (_, c) in enumerate(bads, 1)}
+    got = {k: x[3] for k, x in rej.items()}
+    if got != want:
+        raise Machinery(f"canary failed: rejected {rej}, expected exactly {want}")
+    v.extra["canary"] = ("a behaviour generated by the spec (states included) is accepted as a trace; the same trace with one flipped state bit / a wrong export size / "
+                         "one flipped bit of the decoded binary / a false gap fact is rejected at clauses " + ", ".join(want.values()))
 
 
 def probe_hidden(v):
@@ -872,8 +935,8 @@ def replay(path):
         elif name == "values":
             sched = SCHED_VALUES
         elif name == "alias":
-            sched = SCHED_ALIAS if (ad.has_binary and ad.kind not in SLOW_KINDS) else SCHED_ALIAS_NOBIN
-        if body.get("tier") == "quick" and ad.kind in SLOW_KINDS and name in ("template", "values"):
+            sched = SCHED_ALIAS if (ad.has_binary and ad.kind != "xmcd") else SCHED_ALIAS_NOBIN
+        if (ad.kind == "xmcd" or (body.get("tier") == "quick" and ad.kind in SLOW_KINDS)) and name in ("template", "values"):
             sched = SCHED_TEMPLATE_SHORT if name == "template" else SCHED_VALUES_SHORT
         if sched is None:
             # generated schedule: rebuild the steps from the witness (classes are re-concretised with the same seed)
